@@ -338,6 +338,13 @@ class MessageQueue(Entity):
 
         return delivery_event
 
+    def _discard_pending(self, message_id: str) -> None:
+        """Remove a message id from the pending queue if it is there."""
+        try:
+            self._pending_queue.remove(message_id)
+        except ValueError:
+            pass
+
     def acknowledge(self, message_id: str) -> None:
         """Acknowledge successful processing of a message.
 
@@ -350,10 +357,13 @@ class MessageQueue(Entity):
         msg = self._messages[message_id]
         msg.state = MessageState.ACKNOWLEDGED
 
-        # Remove from in-flight and messages
+        # Remove from in-flight and messages. The message may also be waiting
+        # in the pending queue (visibility timeout fired before this late
+        # ack): a stale id left at the head would block every later poll().
         self._in_flight.pop(message_id, None)
         self._messages.pop(message_id, None)
         self._redelivery_scheduled.discard(message_id)
+        self._discard_pending(message_id)
 
         self._messages_acknowledged += 1
 
@@ -371,8 +381,11 @@ class MessageQueue(Entity):
         msg.state = MessageState.REJECTED
         self._messages_rejected += 1
 
-        # Remove from in-flight
+        # Remove from in-flight (and from the pending queue, where the message
+        # sits if its redelivery was already scheduled: it must not be queued twice
+        # or stay queued after it was dead-lettered)
         self._in_flight.pop(message_id, None)
+        self._discard_pending(message_id)
 
         if requeue and msg.delivery_count < self._max_redeliveries:
             # Requeue for redelivery
